@@ -61,3 +61,19 @@ package prelude
 //@   trusted
 //@   modifies nothing
 //@   ensures result1 == nil ==> result0 != nil
+
+//@ package github.com/influxdata/influxql
+
+//@ func ParseQuery
+//@   trusted
+//@   modifies nothing
+//@   ensures result1 == nil ==> result0 != nil
+//@   ensures result1 == nil ==> forall i int :: 0 <= i && i < len(result0.Statements) ==>
+//@       (typeis(result0.Statements[i], *SelectStatement) ==> as(result0.Statements[i], *SelectStatement) != nil)
+
+//@ package github.com/pkg/errors
+
+//@ func Wrap
+//@   trusted
+//@   modifies nothing
+//@   ensures err != nil ==> result != nil
